@@ -55,6 +55,12 @@ type ErrV struct { // model of error values
 }
 type Opaque struct{ what string }
 
+// FloatV is a CONCRETE floating point value (symbolic floats stay Opaque).
+type FloatV struct {
+	f  float64
+	w32 bool
+}
+
 func (a ArrayV) get(i int) Value {
 	if v, ok := a.elems[i]; ok {
 		return v
@@ -337,6 +343,9 @@ func (m *Machine) zero(t types.Type) Value {
 			}
 			return Sc{m.ctx.BV(0, w)}
 		}
+		if u.Info()&types.IsFloat != 0 {
+			return FloatV{w32: u.Kind() == types.Float32}
+		}
 		return Opaque{"zero " + t.String()}
 	case *types.Pointer:
 		return Ptr{}
@@ -388,6 +397,13 @@ func (m *Machine) constVal(c *ssa.Const) Value {
 		}
 		u, _ := constant.Uint64Val(constant.ToInt(c.Value))
 		return Sc{m.ctx.BV(u, w)}
+	}
+	if b, ok := t.Underlying().(*types.Basic); ok && b.Info()&types.IsFloat != 0 {
+		f, _ := constant.Float64Val(constant.ToFloat(c.Value))
+		if b.Kind() == types.Float32 {
+			return FloatV{f: float64(float32(f)), w32: true}
+		}
+		return FloatV{f: f}
 	}
 	return Opaque{"const " + c.String()}
 }
@@ -545,6 +561,41 @@ func (m *Machine) binop(op token.Token, x, y Value, t types.Type, xt types.Type)
 		return Opaque{"arithmetic on an opaque (floating point) value"}
 	}
 	if _, ok := y.(Opaque); ok {
+		return Opaque{"arithmetic on an opaque (floating point) value"}
+	}
+	if fx, ok := x.(FloatV); ok {
+		fy, ok := y.(FloatV)
+		if !ok {
+			return Opaque{"arithmetic on an opaque (floating point) value"}
+		}
+		rnd := func(f float64) Value {
+			if fx.w32 {
+				return FloatV{f: float64(float32(f)), w32: true}
+			}
+			return FloatV{f: f}
+		}
+		switch op {
+		case token.ADD:
+			return rnd(fx.f + fy.f)
+		case token.SUB:
+			return rnd(fx.f - fy.f)
+		case token.MUL:
+			return rnd(fx.f * fy.f)
+		case token.QUO:
+			return rnd(fx.f / fy.f)
+		case token.EQL:
+			return Sc{c.Bool(fx.f == fy.f)}
+		case token.NEQ:
+			return Sc{c.Bool(fx.f != fy.f)}
+		case token.LSS:
+			return Sc{c.Bool(fx.f < fy.f)}
+		case token.LEQ:
+			return Sc{c.Bool(fx.f <= fy.f)}
+		case token.GTR:
+			return Sc{c.Bool(fx.f > fy.f)}
+		case token.GEQ:
+			return Sc{c.Bool(fx.f >= fy.f)}
+		}
 		return Opaque{"arithmetic on an opaque (floating point) value"}
 	}
 	// strings
@@ -714,7 +765,36 @@ func (m *Machine) convert(v Value, from, to types.Type) Value {
 	if _, ok := v.(Opaque); ok {
 		return v
 	}
+	if fv, ok := v.(FloatV); ok {
+		if b, ok := to.Underlying().(*types.Basic); ok && b.Info()&types.IsFloat != 0 {
+			if b.Kind() == types.Float32 {
+				return FloatV{f: float64(float32(fv.f)), w32: true}
+			}
+			return FloatV{f: fv.f}
+		}
+		if wt, st, ok := intWidth(to); ok && wt > 0 {
+			if st {
+				return Sc{c.BV(uint64(int64(fv.f)), wt)}
+			}
+			return Sc{c.BV(uint64(fv.f), wt)}
+		}
+		return Opaque{"conversion of a float"}
+	}
 	if b, ok := to.Underlying().(*types.Basic); ok && b.Info()&types.IsFloat != 0 {
+		if sv, ok := v.(Sc); ok && sv.t.konst {
+			if wf, sf, ok := intWidth(from); ok && wf > 0 {
+				var f float64
+				if sf {
+					f = float64(sext(sv.t.cv, wf))
+				} else {
+					f = float64(sv.t.cv)
+				}
+				if b.Kind() == types.Float32 {
+					return FloatV{f: float64(float32(f)), w32: true}
+				}
+				return FloatV{f: f}
+			}
+		}
 		return Opaque{"conversion to floating point"}
 	}
 	if sv, ok := v.(StrV); ok {
@@ -1055,8 +1135,13 @@ func (m *Machine) exec(s *State, f *Frame, in ssa.Instruction) []*State {
 	case *ssa.TypeAssert:
 		iv := s.get(x.X).(IfaceV)
 		ok := iv.typ != nil && types.Identical(iv.typ, x.AssertedType)
-		if _, isIface := x.AssertedType.Underlying().(*types.Interface); isIface {
-			ok = iv.typ != nil
+		_, toIface := x.AssertedType.Underlying().(*types.Interface)
+		if it, isIface := x.AssertedType.Underlying().(*types.Interface); isIface {
+			ok = iv.typ != nil && (types.Implements(iv.typ, it) || it.NumMethods() == 0)
+			if _, isErr := iv.v.(*ErrV); isErr && iv.typ != nil {
+				// model error values carry the static type `error`: they implement error and nothing else
+				ok = it.NumMethods() == 0 || (it.NumMethods() == 1 && it.Method(0).Name() == "Error")
+			}
 		}
 		if x.CommaOk {
 			var v Value = m.zero(x.AssertedType)
@@ -1073,6 +1158,9 @@ func (m *Machine) exec(s *State, f *Frame, in ssa.Instruction) []*State {
 				return nil
 			}
 			f.env[x] = iv.v
+			if toIface {
+				f.env[x] = iv
+			}
 		}
 	case *ssa.Extract:
 		f.env[x] = s.get(x.Tuple).(TupleV).v[x.Index]
